@@ -41,7 +41,7 @@ PROPS = {
     "C17": std("c17", 5000, 50000, fuzz=45),
     "C09": std("c09", 20000, 200000, fuzz=45),
     "C08": std("c08", 10000, 40000, fuzz=30),
-    "C15": std("c15", 3000, 12000, extra=dict(engine="rapid stateful (model-based histories)")),
+    "C15": std("c15", 2000, 12000, extra=dict(engine="rapid stateful (model-based histories)")),
     "C12": std("c12", 10000, 100000, fuzz=30),
     "C14": std("c14", 5000, 50000, fuzz=30),
     "C13": std("c13", 5000, 50000, fuzz=30),
